@@ -436,4 +436,44 @@ def gen_SdpConsts():
     emit("SdpConsts", "\n".join(L) + "\n", {"sources": ["spsdk/sdp/commands.py", "spsdk/sdp/error_codes.py", "spsdk/sdp/sdp.py"], "format": fmt})
 
 
-GENERATORS = {"MbootConsts": gen_MbootConsts, "SdpConsts": gen_SdpConsts}
+def gen_MbootProps():
+    """Generated/MbootProps.lean: the PROPERTIES table of parse_property_value (tag -> value class, true values of BoolValue),
+    PropertyTag / PeripheryTag / ExtMemPropTags members."""
+    propm, memm = parse(PROP), parse("spsdk/mboot/memories.py")
+    pt = enum_members(propm, "PropertyTag")
+    ptd = dict(pt)
+    rows = []
+    for n in ast.walk(propm):
+        tgt = n.targets[0] if isinstance(n, ast.Assign) else n.target if isinstance(n, ast.AnnAssign) else None
+        val = getattr(n, "value", None)
+        if isinstance(tgt, ast.Name) and tgt.id == "PROPERTIES" and isinstance(val, ast.Dict):
+            for k, v in zip(val.keys, val.values):
+                ea = _enum_attr(k)
+                if not (ea and ea[0] == "PropertyTag" and isinstance(v, ast.Dict)):
+                    continue
+                d = {kk.value: vv for kk, vv in zip(v.keys, v.values) if isinstance(kk, ast.Constant)}
+                cls = d["class"].id if isinstance(d.get("class"), ast.Name) else "?"
+                tv = [1]
+                kw = d.get("kwargs")
+                if isinstance(kw, ast.Dict):
+                    for kk, vv in zip(kw.keys, kw.values):
+                        if isinstance(kk, ast.Constant) and kk.value == "true_values":
+                            try:
+                                tv = [int(x) for x in ast.literal_eval(vv)]
+                            except (ValueError, SyntaxError):
+                                tv = [999999]
+                rows.append((ptd.get(ea[1], 999999), cls, tv))
+    L = ["namespace SpsdkVerif.Generated.MbootProps", ""]
+    L.append(f"def propertyTags : List (String × Nat) := [{', '.join(f'(\"{n}\", {v})' for n, v in pt)}]")
+    L.append("/-- PROPERTIES: (tag, value class, true values of a BoolValue) -/")
+    L.append("def propertyClasses : List (Nat × String × List Nat) := [" +
+             ", ".join(f'({t}, "{c}", [{", ".join(map(str, tv))}])' for t, c, tv in rows) + "]")
+    per = enum_members(propm, "PeripheryTag")
+    L.append(f"def peripheryTags : List (String × Nat) := [{', '.join(f'(\"{n}\", {v})' for n, v in per)}]")
+    em = enum_members(memm, "ExtMemPropTags")
+    L.append(f"def extMemPropTags : List (String × Nat) := [{', '.join(f'(\"{n}\", {v})' for n, v in em)}]")
+    L += ["", "end SpsdkVerif.Generated.MbootProps"]
+    emit("MbootProps", "\n".join(L) + "\n", {"sources": [PROP, "spsdk/mboot/memories.py"], "rows": len(rows)})
+
+
+GENERATORS = {"MbootConsts": gen_MbootConsts, "SdpConsts": gen_SdpConsts, "MbootProps": gen_MbootProps}
